@@ -278,6 +278,33 @@ def py_likelihood(root, x):
     return val(root)
 
 
+def py_log_likelihood(root, x):
+    """independent float64 evaluation in the LOG domain of a circuit on one complete row (log-sum-exp by hand, Gaussian
+    log-density by formula): for rows whose likelihood underflows every linear-domain number."""
+    NEG = float("-inf")
+    memo = {}
+    def lse(terms):
+        m = max(terms)
+        return NEG if m == NEG else m + math.log(sum(math.exp(t - m) for t in terms))
+    def val(o):
+        k = id(o)
+        if k in memo:
+            return memo[k]
+        if isinstance(o, Sum):
+            r = lse([(math.log(float(w)) if float(w) > 0 else NEG) + val(c) for w, c in zip(o.weights, o.children)])
+        elif isinstance(o, Product):
+            r = sum(val(c) for c in o.children)
+        elif isinstance(o, Gaussian):
+            z = (float(x[int(o.scope[0])]) - float(o.mean)) / float(o.stddev)
+            r = -0.5 * z * z - math.log(float(o.stddev)) - 0.5 * math.log(2.0 * math.pi)
+        else:
+            p = py_likelihood(o, x)
+            r = math.log(p) if p > 0 else NEG
+        memo[k] = r
+        return r
+    return val(root)
+
+
 # ------------------------------------------------------------------ object -> table
 def post_order(root):
     seen = {}; order = []
